@@ -703,3 +703,60 @@ def c02(run):
     run.assumptions = [SYMBOLIC, 'changes confined to the unhashed area and to MPI bit-count octets are not constrained (DontCare)',
                        'negligible-probability events (a flipped bit that keeps a 16-bit prefix and a valid signature) are outside the model']
     run.notes['trusted_base'] = TRUSTED
+
+
+def sigdigest_cfg(by_key=True, invs='LayoutConsistent FingerprintFramingAgrees'):
+    return (f"CONSTANTS\n  FrameByKeyVersion = {'TRUE' if by_key else 'FALSE'}\n"
+            f"SPECIFICATION Spec\nINVARIANTS {invs}\nCHECK_DEADLOCK FALSE\n")
+
+
+@prop('C11', 'exploration')
+def c11(run):
+    run.mc('MCSigDigest', sigdigest_cfg(), name='mc', workers=1)
+    # non-vacuity: framing a certified key by the signer's version instead of its own breaks the layout invariant
+    run.mc('MCSigDigest', sigdigest_cfg(by_key=False, invs='LayoutConsistent'), name='sens_frame_by_signer_version', workers=1, expect_violation='LayoutConsistent')
+    run.mc('MCSigDigest', sigdigest_cfg(by_key=False, invs='FingerprintFramingAgrees'), name='sens_fingerprint_framing', workers=1, expect_violation='FingerprintFramingAgrees')
+    run.mc('MCTextCanon', textcanon_cfg(run.q(6, 8), [2, 3]), name='mc_textcanon')
+    g = run.mc('MCSigDigest', sigdigest_cfg(invs='GenDigest'), name='gen', workers=1, count=False)
+    cases = [c for c in g.cases if c['kind'] == 'digest']
+    if run.replay and run.replay.get('source_case'):
+        cases = [run.replay['source_case']]
+    for i, c in enumerate(cases):
+        c.setdefault('ci', i)
+    body, summary, oks = run.harness('c11', cases, timeout=3300)
+    run.distinct_nontrivial = summary['extra']['nontrivial']
+    run.traces_validated = summary['evaluations']
+    run.rule = ('SigDigest.tla gives, for every signature type x signature version (3, 4, 6) x signed object, the RFC 9580 5.2.4 preimage as a token '
+                'sequence (salt, document or canonical text, key framing 0x99/len16 vs 0x9B/len32 chosen by the SIGNATURE version, user id / attribute '
+                'framing, signature fields, trailer, v3 tail); TLC checks layout consistency and emits every layout. The harness fills the tokens with '
+                'the octets of real objects, hashes with the primitive crates and requires (a) the digest the crate hands to the signing primitive '
+                '(recording SigningKey) through sign / sign_certification_third_party / sign_subkey_binding / sign_key / DetachedSignature / '
+                'MessageBuilder equals it, and (b) a signature assembled over the independent preimage verifies in the crate with that same digest '
+                '(recording VerifyingKey) - for RSA and EdDSA v4, Ed25519 and RSA v6, 4-5 hash algorithms, 3-4 hashed-subpacket sets (empty, minimal, '
+                'rich, 60 kB, 70 kB) and signer/signee version combinations (v4 signing v6 keys and the reverse)')
+    run.add_samples([c for c in cases if c['typ'] in (16, 24)][:2])
+    run.add_samples(oks[:2])
+    run.assumptions = [SYMBOLIC, 'subpackets are serialised by the crate (their wire form is decided by C05/C17)', 'v2/v3 certification and key signatures: the crate offers no verification entry point; recorded as not constrained']
+    run.notes['trusted_base'] = TRUSTED
+
+
+@prop('C13', 'exploration')
+def c13(run):
+    run.mc('MCSigDigest', sigdigest_cfg(), name='mc', workers=1)
+    g = run.mc('MCSigDigest', sigdigest_cfg(invs='GenFpr'), name='gen', workers=1, count=False)
+    cases = [c for c in g.cases if c['kind'] == 'fingerprint']
+    for i, c in enumerate(cases):
+        c.setdefault('ci', i)
+    body, summary, oks = run.harness('c13', cases, timeout=3300)
+    run.distinct_nontrivial = summary['extra']['nontrivial']
+    run.traces_validated = summary['evaluations']
+    run.rule = ('SigDigest.tla states the fingerprint preimage, hash, length and key-id rule per key version (v3: MD5 over the RSA MPI values, key id = '
+                'low 64 bits of n; v4: SHA-1 over 0x99 len16 body, low 64 bits; v6: SHA-256 over 0x9B len32 body, high 64 bits) and the places the library '
+                'embeds them (issuer subpackets, one-pass packets, PKESK recipient fields). The harness recomputes both with the primitive crates for every '
+                'primary and subkey of every generated key (all algorithms, many seeds) and every key that parses from the fixture corpus under /repo/tests, '
+                'compares with fingerprint()/legacy_key_id(), checks secret/public/serialised/armored/re-parsed copies agree, and reads the embedded values '
+                'out of library-made signatures and encrypted messages with an independent deframer, then looks the key up through them (verify / decrypt)')
+    run.add_samples(cases[:3])
+    run.add_samples(oks[:2])
+    run.assumptions = ['the public key body octets are the crate\'s serialisation (decided against the RFC grammar by C05/C17)']
+    run.notes['trusted_base'] = TRUSTED
